@@ -87,13 +87,33 @@ def make_ports_cfg(adv, desc, st, order=None):
     return adv.PortsCfg(provides=psc['provides'], requires=psc['requires'], multiclient=mcc)
 
 
+def make_preset_ports_cfg(adv, desc, st, order=None):
+    """The ports configuration made with one of the convenience functions of dznpy.adv_shell (desc['preset'])."""
+    from dznpy.scoping import ns_ids_t  # pylint: disable=import-outside-toplevel
+    name = desc['preset']
+    mcc = None
+    if desc.get('multiclient'):
+        st.stage = 'MultiClientPortCfg'
+        mcd = desc['multiclient']
+        mcc = adv.MultiClientPortCfg(port_name=mcd['port'], claim_event_name=mcd['claim'],
+                                     claim_granting_reply_value=ns_ids_t(list(mcd['grant'])), release_event_name=mcd['release'])
+    st.stage = 'PortSelect'
+    fun = getattr(adv, name)
+    if name in ('all_mts_mixed_ts', 'all_sts_mixed_ts'):
+        sts, mts = _select(adv, desc['requires']['sts'], order), _select(adv, desc['requires']['mts'], order)
+        st.stage = 'PortsCfg'
+        return fun(sts, mts, mcc) if name == 'all_mts_mixed_ts' else fun(sts, mts)
+    st.stage = 'PortsCfg'
+    return fun(mcc) if name in ('all_mts', 'all_mts_all_sts') else fun()
+
+
 def make_configuration(desc, fct, st=None, order=None):
     core.repo_guard()
     import dznpy.adv_shell as adv  # pylint: disable=import-outside-toplevel
     from dznpy.adv_shell.common import Configuration, FacilitiesOrigin  # pylint: disable=import-outside-toplevel
     from dznpy.scoping import ns_ids_t  # pylint: disable=import-outside-toplevel
     st = st or Staged()
-    ports_cfg = make_ports_cfg(adv, desc, st, order)
+    ports_cfg = make_preset_ports_cfg(adv, desc, st, order) if desc.get('preset') else make_ports_cfg(adv, desc, st, order)
     st.stage = 'Configuration'
     return Configuration(dezyne_filename=desc.get('file', 'M.dzn'), ast_fc=fct,
                          output_basename_suffix=desc['suffix'],
